@@ -258,7 +258,7 @@ static int MAXCELLS = 120;
 static Case draw() {
     Case c;
     c.res = ri(0, 15);
-    c.g = pq::drawPoly(c.res, MAXCELLS, true, rpick({3, 3, 3, 3, 1, 1}));
+    c.g = pq::drawPoly(c.res, MAXCELLS, true, rpick({3, 3, 3, 3, 1, 1, 0, 3}), -1, true);
     int m = rpick({1, 1, 1});
     c.badflags = m == 0 ? (uint32_t)ri(4, 15) : m == 1 ? (uint32_t)(ri(0, 3) | (1u << ri(4, 31))) : (uint32_t)r64();
     if (c.badflags < 4) c.badflags += 4;
